@@ -249,9 +249,8 @@ def o_exact(w, tr):
                                 out.append((f'C01:{op}:part-checksum',
                                             f'part {p.get("PartNumber")} listed with {member}={p.get(member)!r}, S3 returned {have["cs"]!r}'))
                                 break
-            st = info.get('stream')
-            if st is not None and hasattr(st, 'min_pos_seen') and st.seekable() and st.min_pos_seen < st.start:
-                out.append(('C01:upload:read-before-start', f'stream seeked to {st.min_pos_seen} < start {st.start}'))
+            # (where the library seeks in a seekable source is its own business as long as the object is
+            #  the stream from its call-time position to EOF - a clause on seek positions was removed)
         else:
             got = _dest_bytes(w, info)
             dst = info['t'].get('dst', 'path')
@@ -634,10 +633,21 @@ def o_limits(w, tr):
     osu = getattr(w, 'osutil', None)
     if osu is not None and getattr(osu, 'max_writers', 0) > 1:
         out.append(('C10:concurrent-writes', f'{osu.max_writers} concurrent writes to one destination file'))
-    io_sub = [e[3]['fut'] for e in tr.ev('ex.submit') if e[3]['ex'] == 'ex2']
-    io_start = [e[3]['fut'] for e in tr.ev('ex.start') if e[3]['ex'] == 'ex2']
-    if io_start != io_sub[:len(io_start)]:
-        out.append(('C10:io-order', 'IO tasks started in an order different from the order they were queued'))
+    # "the writes to any one destination are performed ... in the order they were queued": per
+    # transfer (= per destination), the IO tasks start in the order in which they were submitted
+    def _owner(label):
+        return label.split('.', 1)[0] if label.startswith('t') and '.' in label else None
+    per_sub, per_start = {}, {}
+    for e in tr.ev('ex.submit'):
+        if e[3]['ex'] == 'ex2':
+            per_sub.setdefault(_owner(e[3]['task']), []).append(e[3]['fut'])
+    for e in tr.ev('ex.start'):
+        if e[3]['ex'] == 'ex2':
+            per_start.setdefault(_owner(e[3]['task']), []).append(e[3]['fut'])
+    for owner, started in per_start.items():
+        if owner is not None and started != per_sub.get(owner, [])[:len(started)]:
+            out.append(('C10:io-order', f'IO tasks of transfer {owner} started in an order different from the order they were queued'))
+            break
     ioex = [x for x in w.sched.user.get('executors', []) if x._name == 'ex2']
     if ioex:
         # observation for the evidence only: the property bounds writers per destination
@@ -1058,19 +1068,15 @@ def o_bandwidth(w, tr):
                                 f'a task of transfer {running[tid]} went to sleep {pl["d"]:.3f}s for the bandwidth limit at step {step}, '
                                 f'in a read that started after the transfer was recorded as failed/cancelled at step {t0}'))
                     break
-    # reads of a request body that move nothing over the wire (the checksum / signing passes botocore
-    # makes before it sends) are neither delayed nor charged
-    phase = {}
-    for e in w.sched.log:
-        step, tid, kind, pl = e[0], e[1], e[2], e[3]
-        if kind == 'body.phase':
-            phase[tid] = pl['phase']
-        elif kind in ('sleep', 'bw.charge') and phase.get(tid) == 'checksum':
-            what = (f'was charged {pl["amt"]} bytes' if kind == 'bw.charge' else f'slept {pl["d"]:.3f}s')
-            out.append(('C13:wiring:non-transfer-read-throttled',
-                        f'at step {step} thread {tid} {what} for the bandwidth limit while its request body was only being '
-                        f'read for a checksum (nothing was being transferred)'))
-            break
+    # "traffic whose demand stays below the limit is never delayed": in scenarios whose fake socket
+    # takes the request bodies at a fraction of the limit (send_think), the limiter never sleeps
+    if w.scn.get('send_think'):
+        for e in w.sched.log:
+            if e[2] == 'sleep' and e[3].get('label') is None:
+                out.append(('C13:wiring:delayed-below-limit',
+                            f'at step {e[0]} (t={e[4]:.3f}) thread {e[1]} was put to sleep {e[3]["d"]:.3f}s by the bandwidth limiter although '
+                            f'the wire demand of the scenario stays below max_bandwidth={m}'))
+                break
     moves = []
     for kind in ('body.read', 'stream.read'):
         for e in tr.ev(kind):
